@@ -78,6 +78,20 @@ EDITS = [
  ('sched-colo-ignore', 'C02', 'agent/scheduler/continuous.py',
   "                    if node_index not in self._colo_history[colo_tag]:\n                        continue",
   "                    if node_index not in self._colo_history[colo_tag]:\n                        pass", 'schedule_task'),
+ ('iter-node-twice', 'C01', 'agent/scheduler/continuous.py',
+  "            self._node_offset += 1\n", "            self._node_offset += 0\n", '_iterate_nodes'),
+ ('mark-lfs-sign', 'C03', 'agent/scheduler/base.py',
+  "                if new_state == rpc.BUSY:\n                    node['lfs'] -= slot['lfs']\n                else:\n                    node['lfs'] += slot['lfs']",
+  "                if new_state == rpc.BUSY:\n                    node['lfs'] -= slot['lfs']\n                else:\n                    node['lfs'] -= slot['lfs']", '_change_slot_states'),
+ ('mark-gpu-skip', 'C01', 'agent/scheduler/base.py',
+  "            for gpu in slot['gpus']:\n                node['gpus'][gpu['index']] = new_state",
+  "            for gpu in slot['gpus'][1:]:\n                node['gpus'][gpu['index']] = new_state", '_change_slot_states'),
+ ('active-cnt-twice', 'C03', 'agent/scheduler/base.py',
+  "            to_release.append(task)\n            self._active_cnt -= 1",
+  "            to_release.append(task)\n            self._active_cnt -= 2", '_unschedule_completed'),
+ ('alloc-no-mark-busy', 'C01', 'agent/scheduler/base.py',
+  "            self._change_slot_states(slots, rpc.BUSY)\n            task['slots']     = slots",
+  "            task['slots']     = slots", '_try_allocation'),
 ]
 
 
